@@ -15,6 +15,10 @@ S2C: every frame sequence up to length L that TLC enumerates (valid frames of ca
      close frame and pongs are compared with the specification after every frame.
 C2S: seeded random frame sequences (longer, bigger catalogue) recorded from the real receiver
      and validated by TLC against Trace_WsReceiver.
+
+Binding demonstrated in a scratch worktree (notes/ws.md): control-length check `>= 126` -> `> 126`,
+the "data frame inside a fragmented message" abort removed, UTF-8 decoding with "replace", and
+`new_len > max` -> `>=` are each reported; an incomplete version of the F07 fix was rejected too.
 """
 import hashlib
 import os
